@@ -94,6 +94,7 @@ def run(ctx):
     exprs = list(base)
     small = [b for b in base if b[1].n_modes <= 4 and len(b[2]) <= 16]
     for _ in range(N(40, 300)):
+      try:
         (n1, c1, d1), (n2, c2, d2) = rng.choice(small), rng.choice(small)
         k = rng.random()
         if k < 0.4:
@@ -110,6 +111,9 @@ def run(ctx):
             dom = [v for v in d1 if enc(c1, v) in set(d2)]
             if not dom: continue
             exprs.append(('(%s * %s)' % (n1, n2), c1 * c2, dom))
+      except Exception as e:
+        ctx.count('code_validity', 1)
+        ctx.violation('C09 combining valid codes %s and %s raised %s: %s' % (n1, n2, type(e).__name__, e), {'codes': [n1, n2], 'built_before': [b[0] for b in base]})
     for name, code, dom in exprs:
         if code.n_modes > 12 or len(dom) > 1100: continue
         rows = rows_of(code)
